@@ -319,6 +319,20 @@ func (u Uncomparable) Reopen() error                   { return u.Inner.Reopen()
 func (u Uncomparable) Type() eventlogger.NodeType      { return u.Inner.Type() }
 func (u Uncomparable) Close(ctx context.Context) error { return u.Inner.Close(ctx) }
 
+// UncomparableWrap is a decorator held BY VALUE whose dynamic type cannot be compared or hashed; it has no
+// Close of its own and hands out the closable node through Unwrap.
+type UncomparableWrap struct {
+	Inner *N
+	Pad   []int
+}
+
+func (u UncomparableWrap) Process(ctx context.Context, e *eventlogger.Event) (*eventlogger.Event, error) {
+	return u.Inner.Process(ctx, e)
+}
+func (u UncomparableWrap) Reopen() error              { return u.Inner.Reopen() }
+func (u UncomparableWrap) Type() eventlogger.NodeType { return u.Inner.Type() }
+func (u UncomparableWrap) Unwrap() eventlogger.Node   { return closerOnly{u.Inner} }
+
 // Ends reports how a traversal ends at this node under behaviour b:
 // "next" (event handed on), "complete" (filtered / sink success), "warn".
 func (n *N) Ends(b Behav) string {
